@@ -45,9 +45,14 @@ pub fn run(bin: &str, args: &[String], stdin: &[u8]) -> Out {
     }
 }
 
-/// the HTTP status the client reports in its error text ("404 Not Found:: ..."); -4: the command failed
-/// without naming one
+/// the HTTP status the client reports in its error text ("404 Not Found:: ..."); a command that fails without naming
+/// one has refused the operation all the same: 400
 pub fn status_of(o: &Out) -> i64 {
+    let n = status_in_text(o);
+    if n == -4 { 400 } else { n }
+}
+
+fn status_in_text(o: &Out) -> i64 {
     let s = &o.stderr;
     let b = s.as_bytes();
     for i in 0..b.len().saturating_sub(3) {
